@@ -43,8 +43,9 @@ RULE = ("case = (driver family, generic|Hamiltonian twin, scheme order, linear s
 ASSUMPTIONS = [
     "sign-change precondition, enforced by construction: grid spacing / max_step is derived from the exact crossing times "
     "so that consecutive zeros of g (and t0 when g(t0,y0)==0) are > 2.5 steps apart and |dg/dt| does not drop below half "
-    "its value at the crossing within 1.25 steps; extrema of g clear zero by >= 5% of max|g| (the span is cut before the "
-    "first grazing / uncertifiable cell)",
+    "its value at the crossing within 1.25 steps; extrema of g clear zero by >= 5% of the running max|g| (the span is cut "
+    "before the first grazing / uncertifiable cell); cases whose location-tolerance windows would overlap are not judged "
+    "(counted in coverage.too_inaccurate)",
     "start exactly on the surface is not a crossing (library test test_dop853_start_on_plane_moving_away_no_hit): the "
     "expected result is the first admissible zero in (t0, tf]",
     "a zero within the location tolerance of tf may be reported or not (either outcome accepted)",
@@ -66,6 +67,7 @@ NMAX_STEPS = 6000
 # library handles and harness-side njit templates (compiled once per process)
 # ---------------------------------------------------------------------------
 _L = {}
+_USED = {"time": 0.0, "state": 0.0, "residual": 0.0}      # largest used fraction of each tolerance on passing cases
 
 
 def _lib():
@@ -633,6 +635,8 @@ def evaluate(case, ctx):
             fails.append(("missed-crossing:" + drv, "no event reported, but g crosses zero in direction %+d at t=%.17g (|dg/dt| tolerance window %.3g) inside (t0=%.17g, tf=%.17g]; %d zero(s) before it"
                           % (e[1], e[0], e[2], t0, tf, n_filtered_before)))
         err = float(np.hypot(*(x_end - fl.x(tf))))
+        if err <= Ey:
+            _USED["state"] = max(_USED["state"], err / Ey)
         if err > Ey:
             fails.append(("end-state-off-trajectory:" + drv, "no event: state at tf deviates %.3g from the exact flow (allowed %.3g)" % (err, Ey)))
     else:
@@ -665,12 +669,18 @@ def evaluate(case, ctx):
                               % (t_end, exp_main[0], abs(t_end - exp_main[0]), exp_main[2], xtol, gtol, h)))
         # on-trajectory and residual checks apply to whatever was reported
         err = float(np.hypot(*(x_end - fl.x(t_end))))
+        if err <= Ey:
+            _USED["state"] = max(_USED["state"], err / Ey)
+        if matched is not None:
+            _USED["time"] = max(_USED["time"], abs(t_end - matched[0]) / matched[2])
         if err > Ey:
             fails.append(("event-state-off-trajectory:" + drv, "reported state deviates %.3g from the exact flow at the reported time (allowed %.3g = 4*%.3g + %.3g + %.3g); h=%.3g"
                           % (err, Ey, emeas, interp, rnd, h)))
         if matched is not None:
             gret = float(evfn(t_end, y_end.copy()))
             gallow = gtol + 2.0 * sc["L1"] * xtol + 64.0 * EPS * sc["Gabs"]
+            if abs(gret) <= gallow:
+                _USED["residual"] = max(_USED["residual"], abs(gret) / gallow)
             if abs(gret) > gallow:
                 fails.append(("event-residual:" + drv, "|g| at the reported event = %.3g > gtol + 2 sup|dg/dt| xtol + rounding = %.3g" % (abs(gret), gallow)))
     for b, msg in fails:
@@ -939,6 +949,7 @@ def run(ctx):
         else:
             explore(ctx, fam + "-gen", gen_case(fam, False), evaluate_top, n_fam * 3 // 5)
             explore(ctx, fam + "-ham", gen_case(fam, True), evaluate_top, n_fam * 2 // 5)
+    ctx.extra["max_used_fraction_of_tolerance"] = [dict(_USED, shard=ctx.shard)]
     deg = ctx.extra.get("degenerate", 0) + ctx.extra.get("too_inaccurate", 0)
     if deg > 0.25 * max(1, ctx.evaluations + deg):
         raise HarnessError("generator unhealthy: %d of %d cases degenerate (%r)" % (deg, ctx.evaluations + deg, ctx.extra.get("degenerate_kinds")))
